@@ -356,10 +356,7 @@ fn check_pair_inner(a: &Ser, b: &Ser, dir: &Path, tag: &str, sample: bool, out: 
             Ok(m) => match serialize_mem(&m) {
                 Ok((bytes, info)) => {
                     if m.shard_file_size() != bytes.len() as u64 {
-                        if out.get("info:in_memory_result_size_estimate_differs_from_serialized") == 0 && a.model.files.is_empty() && b.model.is_empty() {
-                            out.notes.push(format!("MDBInMemoryShard::{op}(..).shard_file_size() = {} but it serializes to {} bytes: first ({}) second ({})", m.shard_file_size(), bytes.len(), a.model.describe(), b.model.describe()));
-                        }
-                        out.count("info:in_memory_result_size_estimate_differs_from_serialized", 1);
+                        fails.push((format!("C10/{op}-in-memory-size-accounting"), format!("MDBInMemoryShard::{op}(..).shard_file_size() = {} but it serializes to {} bytes", m.shard_file_size(), bytes.len())));
                     }
                     let chosen;
                     let want = if op == "union" {
